@@ -125,6 +125,8 @@ def etree_iter_strings(elem: Union[DocumentProtocol, ElementProtocol],
     else:
         for e in elem.iter():
             if callable(e.tag):
+                if e.tail is not None and e is not elem:
+                    yield e.tail  # the tail of a comment or PI is a text node of the parent
                 continue
             if e.text is not None:
                 yield e.text
